@@ -187,7 +187,22 @@ pub fn is_fs_point(name: &str) -> bool {
     FS_POINTS.contains(&name)
 }
 
+thread_local! {
+    static EXEMPT: std::cell::Cell<bool> = const { std::cell::Cell::new(false) };
+}
+/// Runs `f` with the hook points switched off for this thread: what happens inside is neither
+/// counted nor traced nor hit by the fault plan (used for a bystander writer).
+pub fn exempt<R>(f: impl FnOnce() -> R) -> R {
+    let before = EXEMPT.with(|e| e.replace(true));
+    let r = f();
+    EXEMPT.with(|e| e.set(before));
+    r
+}
+
 fn handler(name: &str, p1: Option<&Path>, p2: Option<&Path>) -> std::io::Result<()> {
+    if EXEMPT.with(std::cell::Cell::get) {
+        return Ok(());
+    }
     let tname = thread_name();
     let mut action: Option<Action> = None;
     let mut sleep_us: u64 = 0;
